@@ -1,5 +1,7 @@
 import Sourmash.Lemmas.DatasetsMerge
 import Sourmash.Lemmas.IndexExtend
+import Sourmash.Lemmas.IndexReduce
+import Sourmash.Lemmas.IndexGrouping
 /-! Property C09 — index construction is independent of scheduling and of build increments.
 Property theorems only; helper lemmas live in `Sourmash/Lemmas/Datasets*.lean`, `Lemmas/Index*.lean`.
 
@@ -161,6 +163,10 @@ theorem flat_grouping_ok : GroupingOK (fun _ ops => [ops.map MTree.leaf]) := by
     | nil => rfl
     | cons a t ih => simp [MTree.leavesList, MTree.leaves, ih]
   simp [forestLeaves, this]
+/-- the groupings the correspondence run drives the executable model with (full merges of `k1` operands,
+partial merges of `k2` adjacent operands inside, optionally nested) are groupings, for all parameters -/
+theorem chunk_grouping_ok (k1 k2 : Nat) (deep : Bool) : GroupingOK (chunkGrouping k1 k2 deep) :=
+  chunkGrouping_ok k1 k2 deep
 example : lookupIds listCodec ((createDb listCodec [[5, 7], [7], []] [1, 0, 0, 2] (fun _ ops => [ops.map MTree.leaf])).hashes 7)
     = [0, 1] := by decide
 
@@ -206,6 +212,50 @@ theorem update_rejected_iff {ρ : Type} [BEq ρ] [LawfulBEq ρ] (c : ManyCodec) 
   cases checkSuperset old new <;> simp
 example : checkSuperset [1, 2, 3] [1, 9, 3, 4] = false ∧ checkSuperset [1, 2] [1, 2, 5] = true
     ∧ checkSuperset [1, 2, 3] [1, 2] = true := by decide
+
+/-! ### T-refcount_inv / T-mem_reduce — the in-memory build under every reduction tree
+
+`Colors` is modelled as the refcount function colour ↦ count (0 = not in the map), a colour being
+identified with its id set (recorded assumption: xxh3 `compute_color` is injective on the id sets that
+occur — the code asserts it).  `MemInv` is the invariant: distinct hash keys, refcount of every colour ≥
+number of hashes mapped to it, colours in use ascending. -/
+
+/-- T-refcount_inv: the empty state satisfies the invariant, `add_to` (one dataset's leaf) and
+`reduce_hashes_colors` preserve it and never hit the `unwrap`/`unimplemented!`/`assert_eq!` panics
+(the model's `none`); consequently a colour in use always exists in `Colors` with a positive count -/
+theorem refcount_inv_reduce {a b : H2C × Colors} (ha : MemInv a) (hb : MemInv b) :
+    ∃ r, reduceHC a b = some r ∧ MemInv r :=
+  let ⟨r, h1, h2, _⟩ := reduceHC_spec ha hb
+  ⟨r, h1, h2⟩
+/-- T-refcount_inv (leaf) -/
+theorem refcount_inv_add_to (d : Nat) (hs : List Nat) :
+    ∃ r, addTo [] Colors.empty d hs = some r ∧ MemInv r :=
+  let ⟨r, h1, h2, _⟩ := addToGo_spec d hs [] Colors.empty none MemInv.empty (Or.inl rfl)
+  ⟨r, h1, h2⟩
+/-- T-refcount_inv (use): a colour some hash maps to is present with a positive refcount -/
+theorem refcount_inv_in_use {r : H2C × Colors} (hr : MemInv r) {h : Nat} {col : Color} (hg : r.1.get h = some col) :
+    r.2 col ≠ 0 ∧ 1 ≤ mapped r.1 col ∧ mapped r.1 col ≤ r.2 col :=
+  ⟨hr.count_pos hg, mapped_pos_of_get hg, hr.refs col⟩
+example : MemInv ([], Colors.empty) := MemInv.empty
+
+/-- T-mem_reduce: `abs (reduce a b) = abs a ⊔ abs b` pointwise (`absHC r h` = the ids of the colour of `h`) -/
+theorem mem_reduce {a b : H2C × Colors} (ha : MemInv a) (hb : MemInv b) :
+    ∃ r, reduceHC a b = some r ∧ MemInv r ∧ ∀ h x, x ∈ absHC r h ↔ x ∈ absHC a h ∨ x ∈ absHC b h :=
+  reduceHC_spec ha hb
+
+/-- T-mem_reduce, hence: every reduction tree — any shape, any order of the per-dataset leaves, rayon's identity
+element anywhere — whose leaves are the datasets of the collection (each once, in any order) evaluates
+without panic to the map hash ↦ `{ d : h ∈ D_d }`, the sequential reference -/
+theorem mem_tree_free (C : Coll) (t : RTree) (hperm : t.leaves.Perm (List.range C.length)) :
+    ∃ r, t.eval C = some r ∧ MemInv r ∧ ∀ h, memIds r h = refIds C h := by
+  obtain ⟨r, h1, h2, h3⟩ := RTree.eval_spec C t
+  refine ⟨r, h1, h2, fun h => ?_⟩
+  rw [memIds_eq_abs h2]
+  apply eq_of_sorted_of_mem (sorted_abs h2 h) (sorted_refIds C h)
+  intro x
+  rw [h3 h x, mem_refIds, hperm.mem_iff, List.mem_range]
+example : ((RTree.node (.leaf 1) (.node .ident (.leaf 0))).eval [[5, 7], [7]]).map (fun r => memIds r 7)
+    = some [0, 1] := by decide
 
 /-! ### the processed set: `extend` by one id (what `create` / `update` do) -/
 
